@@ -496,6 +496,308 @@ Qed.
 (* Part I — drivers                                                                                 *)
 (* ================================================================================================ *)
 
+
+(* ---------- emit_assign covers exactly the addressable bits ---------- *)
+Section tgt_induction.
+  Variable P : tgt -> Prop.
+  Hypothesis HSig : forall s w, P (TSig s w).
+  Hypothesis HCast : forall a, P a -> P (TCast a).
+  Hypothesis HSlice : forall a lo hi, P a -> P (TSlice a lo hi).
+  Hypothesis HPart : forall a offw w st, P a -> P (TPart a offw w st).
+  Hypothesis HCat : forall ps, Forall P ps -> P (TCat ps).
+  Hypothesis HSwitch : forall w es, Forall P es -> P (TSwitch w es).
+  Fixpoint tgt_ind' (t : tgt) : P t :=
+    match t with
+    | TSig s w => HSig s w
+    | TCast a => HCast a (tgt_ind' a)
+    | TSlice a lo hi => HSlice a lo hi (tgt_ind' a)
+    | TPart a offw w st => HPart a offw w st (tgt_ind' a)
+    | TCat ps => HCat ps ((fix go (ps : list tgt) : Forall P ps :=
+                             match ps with [] => Forall_nil P | p :: r => Forall_cons p (tgt_ind' p) (go r) end) ps)
+    | TSwitch w es => HSwitch w es ((fix go (ps : list tgt) : Forall P ps :=
+                             match ps with [] => Forall_nil P | p :: r => Forall_cons p (tgt_ind' p) (go r) end) es)
+    end.
+End tgt_induction.
+
+(* bit b of signal s lies in one of the recorded assignments *)
+Definition covered (rs : list arec) (s b : nat) : Prop :=
+  exists r, In r rs /\ a_sig r = s /\ a_start r <= b < a_start r + a_len r.
+
+Lemma covered_app rs1 rs2 s b : covered (rs1 ++ rs2) s b <-> covered rs1 s b \/ covered rs2 s b.
+Proof.
+  unfold covered. split.
+  - intros [r [H R]]. apply in_app_or in H. destruct H; [left|right]; eauto.
+  - intros [[r [H R]]|[r [H R]]]; exists r; (split; [apply in_or_app; auto|assumption]).
+Qed.
+
+Lemma covered_flat_map {A} (f : A -> list arec) l s b :
+  covered (flat_map f l) s b <-> exists x, In x l /\ covered (f x) s b.
+Proof.
+  unfold covered. split.
+  - intros [r [H R]]. apply in_flat_map in H as [x [Hx Hr]]. eauto.
+  - intros [x [Hx [r [Hr R]]]]. exists r. split; [apply in_flat_map; eauto|assumption].
+Qed.
+
+Lemma covered_nil s b : ~ covered [] s b.
+Proof. intros [r [[] _]]. Qed.
+
+Definition addr_cat (k s b : nat) := fix go (ps : list tgt) (off : nat) : Prop :=
+  match ps with
+  | [] => False
+  | p :: ps' => (off <= k /\ k < off + tlen p /\ addr p (k - off) s b) \/ go ps' (off + tlen p)
+  end.
+Definition addr_sw (k s b : nat) := fix go (es : list tgt) : Prop :=
+  match es with
+  | [] => False
+  | e :: es' => (k < tlen e /\ addr e k s b) \/ go es'
+  end.
+
+Lemma addr_sw_iff k s b es : addr_sw k s b es <-> exists e, In e es /\ k < tlen e /\ addr e k s b.
+Proof.
+  induction es as [|e es IH]; simpl.
+  - split; [intros []|intros [e [[] _]]].
+  - rewrite IH. split.
+    + intros [H|[e' [H1 H2]]]; [exists e; auto|exists e'; auto].
+    + intros [e' [[<-|H1] H2]]; [left; assumption|right; eauto].
+Qed.
+
+Lemma cat_len_ge ps : forall off k s b, addr_cat k s b ps off -> k < off + fold_right (fun p acc => tlen p + acc) 0 ps.
+Proof.
+  induction ps as [|p ps IH]; intros off k s b H; simpl in *; [destruct H|].
+  destruct H as [[H1 [H2 _]]|H]; [lia|]. apply IH in H. lia.
+Qed.
+
+Lemma addr_lt : forall t, wf_tgt t = true -> forall k s b, addr t k s b -> k < tlen t.
+Proof.
+  induction t as [s' w|a IH|a lo hi IH|a offw w st IH|ps IH|w es IH] using tgt_ind'; intros W k s b H.
+  - simpl in *. lia.
+  - simpl in *. now apply IH in H.
+  - simpl in *. lia.
+  - simpl in *. destruct H as [H _]. exact H.
+  - change (addr_cat k s b ps 0) in H. apply cat_len_ge in H. simpl. lia.
+  - change (addr_sw k s b es) in H. apply addr_sw_iff in H as [e [He [Hk _]]]. simpl in *.
+    rewrite forallb_forall in W. specialize (W e He). apply andb_true_iff in W as [_ W]. apply Nat.eqb_eq in W. lia.
+Qed.
+
+Definition emit_cat (start len : nat) := fix go (ps : list tgt) (part_stop : nat) : list arec :=
+  match ps with
+  | [] => []
+  | p :: ps' =>
+      let part_start := part_stop in
+      let part_stop := part_start + tlen p in
+      if part_stop <=? start then go ps' part_stop
+      else if start + len <=? part_start then go ps' part_stop
+      else
+        let part_lhs_start := if start <? part_start then 0 else start - part_start in
+        let part_rhs_start := if start <? part_start then part_start - start else 0 in
+        let part_rhs_stop := if part_stop <=? start + len then part_stop - start else len in
+        emit_assign p part_lhs_start (part_rhs_stop - part_rhs_start) ++ go ps' part_stop
+  end.
+
+Theorem emit_assign_spec : forall t, wf_tgt t = true -> forall start len s b,
+  start + len <= tlen t ->
+  (covered (emit_assign t start len) s b <-> exists k, start <= k < start + len /\ addr t k s b).
+Proof.
+  induction t as [s' w|a IH|a lo hi IH|a offw w st IH|ps IH|w es IH] using tgt_ind'; intros W start len s b Hlen.
+  - (* Signal *)
+    simpl in *. unfold covered. split.
+    + intros [r [[<-|[]] [Hs Hb]]]. simpl in *. exists b. repeat split; try lia; try assumption.
+    + intros [k [Hk [-> [-> Hw]]]]. exists (AR s w start len). simpl. repeat split; auto; lia.
+  - (* cast *) simpl in *. now apply IH.
+  - (* Slice *)
+    simpl in W, Hlen. apply andb_true_iff in W as [W W3]. apply andb_true_iff in W as [W1 W2].
+    apply Nat.leb_le in W2, W3. simpl. rewrite IH by (try assumption; lia). split.
+    + intros [k [Hk Ha]]. exists (k - lo). replace (k - lo + lo) with k by lia. repeat split; try lia. assumption.
+    + intros [k [Hk [_ Ha]]]. exists (k + lo). split; [lia|assumption].
+  - (* Part *)
+    cbn [wf_tgt] in W. simpl in Hlen. apply andb_true_iff in W as [W1 W2]. apply Nat.leb_le in W2.
+    cbn [emit_assign]. rewrite covered_flat_map. split.
+    + intros [idx [Hidx Hc]]. apply in_seq in Hidx.
+      destruct (tlen a <=? start + idx * st) eqn:E; [now apply covered_nil in Hc|]. apply Nat.leb_gt in E.
+      apply IH in Hc; [|assumption|destruct (tlen a <=? start + idx * st + len) eqn:E2;
+                                    [apply Nat.leb_le in E2|apply Nat.leb_gt in E2]; lia].
+      destruct Hc as [k [Hk Ha]].
+      assert (Hl : (if tlen a <=? start + idx * st + len then tlen a - (start + idx * st) else len) <= len)
+        by (destruct (tlen a <=? start + idx * st + len) eqn:E2;
+            [apply Nat.leb_le in E2|apply Nat.leb_gt in E2]; lia).
+      exists (k - idx * st). split; [lia|]. simpl. split; [lia|].
+      exists idx. split; [lia|]. replace (k - idx * st + idx * st) with k by lia. assumption.
+    + intros [k [Hk Ha]]. simpl in Ha. destruct Ha as [Hkw [o [Ho Ha]]].
+      pose proof (addr_lt a W1 _ _ _ Ha) as Hlt.
+      exists o. split.
+      * apply in_seq. split; [lia|]. simpl. apply Nat.min_glb_lt; [|assumption].
+        apply Nat.lt_le_trans with (m := S o); [lia|].
+        apply Nat.div_le_lower_bound; [lia|]. nia.
+      * destruct (tlen a <=? start + o * st) eqn:E; [apply Nat.leb_le in E; lia|].
+        apply IH; [assumption|destruct (tlen a <=? start + o * st + len) eqn:E2;
+                               [apply Nat.leb_le in E2|apply Nat.leb_gt in E2]; lia|].
+        exists (k + o * st). split; [|assumption].
+        destruct (tlen a <=? start + o * st + len) eqn:E2; [apply Nat.leb_le in E2|apply Nat.leb_gt in E2]; lia.
+  - (* Cat *)
+    clear Hlen. simpl in W. rewrite forallb_forall in W.
+    change (exists k, start <= k < start + len /\ addr (TCat ps) k s b)
+      with (exists k, start <= k < start + len /\ addr_cat k s b ps 0).
+    change (emit_assign (TCat ps) start len) with (emit_cat start len ps 0).
+    generalize 0 as off.
+    induction ps as [|p ps IHps]; intros off; cbn [emit_cat].
+    + split; [intro H; now apply covered_nil in H|intros [k [_ []]]].
+    + inversion IH as [|? ? IHp IHr]; subst.
+      assert (Wp : wf_tgt p = true) by (apply W; now left).
+      assert (Wr : forall x, In x ps -> wf_tgt x = true) by (intros; apply W; now right).
+      specialize (IHps IHr Wr (off + tlen p)).
+      cbn [addr_cat].
+      destruct (off + tlen p <=? start) eqn:E1.
+      { apply Nat.leb_le in E1. rewrite IHps. split.
+        - intros [k [Hk H]]. exists k. auto.
+        - intros [k [Hk [[H1 [H2 _]]|H]]]; [lia|eauto]. }
+      apply Nat.leb_gt in E1.
+      destruct (start + len <=? off) eqn:E2.
+      { apply Nat.leb_le in E2. rewrite IHps. split.
+        - intros [k [Hk H]]. exists k. auto.
+        - intros [k [Hk [[H1 [H2 _]]|H]]]; [lia|eauto]. }
+      apply Nat.leb_gt in E2.
+      rewrite covered_app, IHps.
+      set (pls := if start <? off then 0 else start - off).
+      set (n := (if off + tlen p <=? start + len then off + tlen p - start else len)
+                - (if start <? off then off - start else 0)).
+      assert (Hw : pls + n <= tlen p /\ pls + off = Nat.max start off
+                   /\ pls + n + off = Nat.min (start + len) (off + tlen p)).
+      { unfold pls, n. destruct (start <? off) eqn:E3; [apply Nat.ltb_lt in E3|apply Nat.ltb_ge in E3];
+        (destruct (off + tlen p <=? start + len) eqn:E4; [apply Nat.leb_le in E4|apply Nat.leb_gt in E4]); lia. }
+      destruct Hw as [Hw1 [Hw2 Hw3]].
+      rewrite (IHp Wp pls n s b Hw1). split.
+      * intros [[k [Hk Ha]]|[k [Hk H]]].
+        -- exists (k + off). split; [lia|]. left. replace (k + off - off) with k by lia. repeat split; try lia. assumption.
+        -- exists k. auto.
+      * intros [k [Hk [[H1 [H2 Ha]]|H]]].
+        -- left. exists (k - off). split; [lia|assumption].
+        -- right. eauto.
+  - (* SwitchValue *)
+    cbn [emit_assign]. simpl in W, Hlen. rewrite forallb_forall in W. rewrite covered_flat_map.
+    change (exists k, start <= k < start + len /\ addr (TSwitch w es) k s b)
+      with (exists k, start <= k < start + len /\ addr_sw k s b es).
+    rewrite Forall_forall in IH. split.
+    + intros [e [He Hc]]. specialize (W e He). apply andb_true_iff in W as [W1 W2]. apply Nat.eqb_eq in W2.
+      rewrite Nat.min_l in Hc by lia. apply (IH e He W1) in Hc; [|lia]. destruct Hc as [k [Hk Ha]].
+      exists k. split; [assumption|]. apply addr_sw_iff. exists e. repeat split; try assumption. lia.
+    + intros [k [Hk Ha]]. apply addr_sw_iff in Ha as [e [He [Hke Ha]]]. exists e. split; [assumption|].
+      specialize (W e He). apply andb_true_iff in W as [W1 W2]. apply Nat.eqb_eq in W2.
+      rewrite Nat.min_l by lia. apply (IH e He W1); [lia|]. eauto.
+Qed.
+
+(* the bits a whole assignment `t.eq(...)` contributes to drivers are exactly the bits it may drive *)
+Corollary emit_assign_may_drive t s b : wf_tgt t = true ->
+  (covered (emit_assign t 0 (tlen t)) s b <-> may_drive t s b).
+Proof.
+  intro W. rewrite (emit_assign_spec t W 0 (tlen t) s b (le_n _)). unfold may_drive.
+  split; intros [k [Hk Ha]]; exists k; (split; [lia|assumption]).
+Qed.
+
+
+(* ---------- the computable spec agrees with the declarative one ---------- *)
+Definition addrb_cat (k s b : nat) := fix go (ps : list tgt) (off : nat) : bool :=
+  match ps with
+  | [] => false
+  | p :: ps' => ((off <=? k) && (k <? off + tlen p) && addrb p (k - off) s b) || go ps' (off + tlen p)
+  end.
+
+Lemma addrb_iff : forall t k s b, addrb t k s b = true <-> addr t k s b.
+Proof.
+  induction t as [s' w|a IH|a lo hi IH|a offw w st IH|ps IH|w es IH] using tgt_ind'; intros k s b.
+  - simpl. rewrite !andb_true_iff, !Nat.eqb_eq, Nat.ltb_lt. tauto.
+  - simpl. apply IH.
+  - simpl. rewrite andb_true_iff, Nat.ltb_lt, IH. tauto.
+  - cbn [addrb addr]. rewrite andb_true_iff, Nat.ltb_lt, existsb_exists. split.
+    + intros [Hk [o [Ho Ha]]]. apply in_seq in Ho. apply IH in Ha. split; [assumption|]. exists o. split; [lia|assumption].
+    + intros [Hk [o [Ho Ha]]]. split; [assumption|]. exists o. split; [apply in_seq; lia|now apply IH].
+  - change (addrb (TCat ps) k s b) with (addrb_cat k s b ps 0).
+    change (addr (TCat ps) k s b) with (addr_cat k s b ps 0).
+    generalize 0 as off. induction ps as [|p ps IHps]; intros off; cbn [addrb_cat addr_cat].
+    + split; [discriminate|intros []].
+    + inversion IH as [|? ? IHp IHr]; subst.
+      rewrite orb_true_iff, !andb_true_iff, Nat.leb_le, Nat.ltb_lt, IHp, (IHps IHr). tauto.
+  - cbn [addrb]. change (addr (TSwitch w es) k s b) with (addr_sw k s b es).
+    rewrite addr_sw_iff, existsb_exists. rewrite Forall_forall in IH. split.
+    + intros [e [He H]]. apply andb_true_iff in H as [H1 H2]. apply Nat.ltb_lt in H1. apply (IH e He) in H2. eauto.
+    + intros [e [He [H1 H2]]]. exists e. split; [assumption|]. apply andb_true_iff. split; [now apply Nat.ltb_lt|now apply IH].
+Qed.
+
+Lemma may_driveb_iff t s b : may_driveb t s b = true <-> may_drive t s b.
+Proof.
+  unfold may_driveb, may_drive. rewrite existsb_exists. split.
+  - intros [k [Hk Ha]]. apply in_seq in Hk. exists k. split; [lia|now apply addrb_iff].
+  - intros [k [Hk Ha]]. exists k. split; [apply in_seq; lia|now apply addrb_iff].
+Qed.
+
+
+(* ---------- connect(): the single-driver assertion, one step ---------- *)
+Lemma bit_eqb_eq x y : bit_eqb x y = true <-> x = y.
+Proof.
+  destruct x as [a b], y as [c d]. unfold bit_eqb. simpl. rewrite andb_true_iff, !Nat.eqb_eq.
+  split; [intros [-> ->]; reflexivity|intro H; inversion H; auto].
+Qed.
+Lemma bmem_In x l : bmem x l = true <-> In x l.
+Proof.
+  unfold bmem. rewrite existsb_exists. split.
+  - intros [y [Hy He]]. apply bit_eqb_eq in He. now subst.
+  - intro H. exists x. split; [assumption|now apply bit_eqb_eq].
+Qed.
+
+(* connect succeeds exactly when every bit is connected for the first time; it then records all of them *)
+Theorem connect_spec : forall bits conns c',
+  connect bits conns = inl c' <->
+  (NoDup bits /\ (forall x, In x bits -> ~ In x conns) /\ c' = rev bits ++ conns).
+Proof.
+  induction bits as [|x r IH]; intros conns c'; simpl.
+  - split; [intro H; inversion H; subst; repeat split; [constructor|intros ? []]|intros [_ [_ ->]]; reflexivity].
+  - destruct (bmem x conns) eqn:E.
+    + split; [discriminate|]. intros [_ [H _]]. exfalso. apply (H x (or_introl eq_refl)). now apply bmem_In.
+    + assert (Hx : ~ In x conns) by (intro H; apply bmem_In in H; congruence).
+      rewrite IH. split.
+      * intros [Hn [Hd ->]]. repeat split.
+        -- constructor; [|assumption]. intro Hin. apply (Hd x Hin). now left.
+        -- intros y [<-|Hy]; [assumption|]. intro Hc. apply (Hd y Hy). now right.
+        -- now rewrite <- app_assoc.
+      * intros [Hn [Hd ->]]. inversion Hn; subst. repeat split; [assumption| |now rewrite <- app_assoc].
+        intros y Hy [<-|Hc]; [contradiction|]. apply (Hd y (or_intror Hy) Hc).
+Qed.
+
+(* a raised connect error names a bit of the new value that is already connected or listed twice *)
+Theorem connect_err : forall bits conns e,
+  connect bits conns = inr e ->
+  exists s b, e = ErrConnect s b /\ In (s, b) bits /\ (In (s, b) conns \/ ~ NoDup bits).
+Proof.
+  induction bits as [|x r IH]; intros conns e H; simpl in H; [discriminate|].
+  destruct (bmem x conns) eqn:E.
+  - inversion H; subst. exists (fst x), (snd x). rewrite <- surjective_pairing.
+    repeat split; [now left|left; now apply bmem_In].
+  - apply IH in H as [s [b [-> [Hin Hor]]]]. exists s, b. repeat split; [now right|].
+    destruct Hor as [[Hx|Hc]|Hnd].
+    + right. intro Hn. inversion Hn as [|? ? Hx' Hr]; subst. exact (Hx' Hin).
+    + now left.
+    + right. intro Hn. inversion Hn as [|? ? Hx' Hr]; subst. exact (Hnd Hr).
+Qed.
+
+(* the per-bit driven_bits check fires only when the bit is covered by another driver with a different key *)
+Lemma mark_bits_err s key : forall bits db e,
+  mark_bits s key bits db = inr e ->
+  exists b k', In b bits /\ In (b, k') db /\ k' <> key /\ (e = ErrDomain s b \/ e = ErrModule s b).
+Proof.
+  induction bits as [|b r IH]; intros db e H; simpl in H; [discriminate|].
+  destruct (find (fun p => Nat.eqb (fst p) b) db) as [[b' [om od]]|] eqn:F.
+  - apply find_some in F as [Fin Fb]. simpl in Fb. apply Nat.eqb_eq in Fb. subst b'.
+    destruct (negb (Nat.eqb od (snd key))) eqn:E1.
+    + inversion H; subst. exists b, (om, od). repeat split; [now left|assumption| |now left].
+      intro K. subst key. simpl in E1. now rewrite Nat.eqb_refl in E1.
+    + destruct (negb (Nat.eqb om (fst key))) eqn:E2.
+      * inversion H; subst. exists b, (om, od). repeat split; [now left|assumption| |now right].
+        intro K. subst key. simpl in E2. now rewrite Nat.eqb_refl in E2.
+      * apply IH in H as [b0 [k' [H1 [H2 [H3 H4]]]]]. exists b0, k'. repeat split; auto. now right.
+  - apply IH in H as [b0 [k' [H1 [[H2|H2] [H3 H4]]]]].
+    + inversion H2; subst. congruence.
+    + exists b0, k'. repeat split; auto. now right.
+Qed.
+
 (* ---------- the systematic family of the harness, inside Coq ---------- *)
 Definition ranges4 : list (nat * nat) :=
   [(0,1);(0,2);(0,3);(0,4);(1,2);(1,3);(1,4);(2,3);(2,4);(3,4)].
